@@ -48,6 +48,8 @@ def types_for(xtors_T=None, xtors_U=None):
 
 class Loc:
     def __init__(self, t):
+        if 'panic' in t:
+            raise LoadError(f"no temporary for this position: {t['panic']}")
         if 'reg' in t:
             self.reg = t['reg']
             self.off = None
@@ -94,7 +96,7 @@ def mk_pre(env, isa, kinds, temps, roots_extra=(), fixed=None):
     st = core.State(env)
     isa.init_regs(st)
     st.mem = [[z3.BitVec(f"m_{b}_{w}", 64) for w in range(8)] for b in range(env.N)]
-    locs = [(Loc(t[0]), Loc(t[1])) for t in temps]
+    locs = [(Loc(t[0]), Loc(t[1])) for t in temps if not (isinstance(t, dict) and 'panic' in t)]
     for key, b in (fixed or {}).items():
         val = 0 if b is None else env.baddr(b)
         if key == 'heap':
@@ -304,8 +306,10 @@ def build(isa, e0, shape, N, sp_class=8):
         ob.load_error = f"code generator panicked: {r.get('panic')}"
         return ob
     ob.text = r['lines']
+    reset_div()
     try:
         _build(isa, e0, shape, N, sp_class, ob, info)
+        ob.assume += list(div_axioms)
     except LoadError as e:
         ob.load_error = str(e)
     return ob
@@ -315,11 +319,7 @@ def _tempmap(e0, isa, n, cache={}):
     key = (isa.NAME, n)
     if key not in cache:
         cache[key] = e0.tempmap(isa.NAME, n)
-    t = cache[key]
-    for x in t:
-        if isinstance(x, dict) and 'panic' in x:
-            raise LoadError(f"tempmap panicked: {x['panic']}")
-    return t
+    return cache[key]
 
 
 def _build(isa, e0, shape, N, sp_class, ob, info):
@@ -450,7 +450,8 @@ def _build(isa, e0, shape, N, sp_class, ob, info):
         st = exits.get('cleanup')
         if st is not None:
             gl = common_exit_goals(st) + [("result", bb(eq(st.regs[isa.RET_REG], snd_pre(shape['a']))))]
-            gl += heap_same_goals(env, pre, st, isa)
+            # the heap and free registers are dead at exit (on AArch64 the return register is the heap register)
+            gl.append(("heap.unchanged", mem_words_equal(env.N, pre.mem, st.mem)))
             gl.append(("no_call", z3.BoolVal(len(st.events) == 0)))
             expected['cleanup'] = (st, gl)
     elif k == 'call':
